@@ -199,7 +199,7 @@ func run(c *core.Ctx) error {
 
 	// ---- replay on the real lake, schedules forced
 	rng := rand.New(rand.NewSource(c.Seed + 8))
-	budget := 45 * time.Second
+	budget := 25 * time.Second
 	if !c.Quick() {
 		budget = 6 * time.Minute
 	}
